@@ -104,25 +104,43 @@ package signal
 //@ requires[C07] cell != nil && cell.Satellite != nil
 //@ arith wrap
 //@ atcall[C08] fmt.Sprintf /^%2d %2d \{?%s, %s, %s, %s, %d, %v, %d, %\.3f\}?$/: (cell.Satellite.RangeWholeMillis == 255 ==> argstr(a1, 2) == "invalid" && argstr(a1, 3) == "invalid") && (cell.Satellite.PhaseRangeRate == 0 - 8192 ==> argstr(a1, 4) == "invalid" && argstr(a1, 5) == "invalid")
+// ... and the numbers shown are the values of RangeInMetres / PhaseRange / PhaseRangeRate / PhaseRangeRateDoppler (both log levels;
+// the range and the rate triple of the debug display share a format, so the clause is the disjunction over which delta leads the triple)
+//@ atcall[C08] fmt.Sprintf /^\(%d, %\.3f, %\.3f\)$/: (argint(a1, 0) == cell.RangeDelta && (RangeValid7(cell) ==> near(argreal(a1, 1), CLIGHT_MS * real(cell.RangeDelta) / 536870912.0, 3) && RangeOK7(cell, argreal(a1, 2)))) || (argint(a1, 0) == cell.PhaseRangeRateDelta && (RateValid7(cell) ==> RateOK7(cell, argreal(a1, 2))))
+//@ atcall[C08] fmt.Sprintf /^\(%d, %\.3f\)$/: argint(a1, 0) == cell.PhaseRangeDelta && (PhaseValid7(cell) ==> PhaseOK7(cell, argreal(a1, 1)))
+//@ atcall[C08] fmt.Sprintf /^%\.3f$/: RateValid7(cell) && cell.Wavelength > 0.0 ==> DopplerOK7(cell, argreal(a1, 0))
+//@ atcall[C08] fmt.Sprintf /^%12\.3f$/: RangeValid7(cell) ==> RangeOK7(cell, argreal(a1, 0))
+//@ atcall[C08] fmt.Sprintf /^%13\.3f$/: PhaseValid7(cell) ==> PhaseOK7(cell, argreal(a1, 0))
+//@ atcall[C08] fmt.Sprintf /^%9\.3f$/: RateValid7(cell) && cell.Wavelength > 0.0 ==> DopplerOK7(cell, argreal(a1, 0))
+//@ atcall[C08] fmt.Sprintf /^%8\.3f$/: RateValid7(cell) ==> RateOK7(cell, argreal(a1, 0))
 
 // ---- C08 ------------------------------------------------------------------------
 // Field ranges of a decoded cell: 8-bit whole ms, 10-bit fractional ms, 14-bit rough rate,
 // 20-bit range delta, 24-bit phase range delta, 15-bit rate delta.
 //@ define Cell7WF(c) = c.Satellite != nil && c.Satellite.RangeWholeMillis <= 255 && c.Satellite.RangeFractionalMillis <= 1023 && 0 - 8192 <= c.Satellite.PhaseRangeRate && c.Satellite.PhaseRangeRate < 8192 && 0 - 524288 <= c.RangeDelta && c.RangeDelta < 524288 && 0 - 8388608 <= c.PhaseRangeDelta && c.PhaseRangeDelta < 8388608 && 0 - 16384 <= c.PhaseRangeRateDelta && c.PhaseRangeRateDelta < 16384
+// what the display and the float-valued methods owe for a cell (x: the value shown or returned); an invalid fine value falls back to the rough value alone
+//@ define Rough7(c) = real(c.Satellite.RangeWholeMillis) + real(c.Satellite.RangeFractionalMillis) / 1024.0
+//@ define RangeValid7(c) = Cell7WF(c) && c.Satellite.RangeWholeMillis != 255 && aggRange(c.Satellite.RangeWholeMillis, c.Satellite.RangeFractionalMillis, c.RangeDelta) >= 0
+//@ define PhaseValid7(c) = Cell7WF(c) && c.Satellite.RangeWholeMillis != 255 && aggPhase(c.Satellite.RangeWholeMillis, c.Satellite.RangeFractionalMillis, c.PhaseRangeDelta) >= 0 && c.Wavelength > 0.0
+//@ define RateValid7(c) = Cell7WF(c) && c.Satellite.PhaseRangeRate != 0 - 8192
+//@ define RangeOK7(c, x) = (c.RangeDelta != 0 - 524288 ==> near(x, CLIGHT_MS * (Rough7(c) + real(c.RangeDelta) / 536870912.0), 4)) && (c.RangeDelta == 0 - 524288 ==> near(x, CLIGHT_MS * Rough7(c), 4))
+//@ define PhaseOK7(c, x) = (c.PhaseRangeDelta != 0 - 8388608 ==> near(x * c.Wavelength, CLIGHT_MS * (Rough7(c) + real(c.PhaseRangeDelta) / 2147483648.0), 6)) && (c.PhaseRangeDelta == 0 - 8388608 ==> near(x * c.Wavelength, CLIGHT_MS * Rough7(c), 6))
+//@ define RateOK7(c, x) = (c.PhaseRangeRateDelta != 0 - 16384 ==> near(x, real(c.Satellite.PhaseRangeRate) + real(c.PhaseRangeRateDelta) / 10000.0, 2)) && (c.PhaseRangeRateDelta == 0 - 16384 ==> near(x, real(c.Satellite.PhaseRangeRate), 2))
+//@ define DopplerOK7(c, x) = (c.PhaseRangeRateDelta != 0 - 16384 ==> near(0.0 - x * c.Wavelength, real(c.Satellite.PhaseRangeRate) + real(c.PhaseRangeRateDelta) / 10000.0, 4)) && (c.PhaseRangeRateDelta == 0 - 16384 ==> near(0.0 - x * c.Wavelength, real(c.Satellite.PhaseRangeRate), 4))
 
 //@ func (*Cell).GetAggregateRange
 //@ arith wrap
 //@ requires[C07] cell != nil
-//@ ensures[C08] Cell7WF(cell) && aggRange(cell.Satellite.RangeWholeMillis, cell.Satellite.RangeFractionalMillis, cell.RangeDelta) >= 0 && cell.Satellite.RangeWholeMillis == 255 ==> result == 0
-//@ ensures[C08] Cell7WF(cell) && aggRange(cell.Satellite.RangeWholeMillis, cell.Satellite.RangeFractionalMillis, cell.RangeDelta) >= 0 && cell.Satellite.RangeWholeMillis != 255 && cell.RangeDelta == 0 - 524288 ==> result == aggRange(cell.Satellite.RangeWholeMillis, cell.Satellite.RangeFractionalMillis, 0)
+//@ ensures[C08] Cell7WF(cell) && cell.Satellite.RangeWholeMillis == 255 ==> result == 0
+//@ ensures[C08] Cell7WF(cell) && cell.Satellite.RangeWholeMillis != 255 && cell.RangeDelta == 0 - 524288 ==> result == aggRange(cell.Satellite.RangeWholeMillis, cell.Satellite.RangeFractionalMillis, 0)
 //@ ensures[C08] Cell7WF(cell) && aggRange(cell.Satellite.RangeWholeMillis, cell.Satellite.RangeFractionalMillis, cell.RangeDelta) >= 0 && cell.Satellite.RangeWholeMillis != 255 && cell.RangeDelta != 0 - 524288 ==> result == aggRange(cell.Satellite.RangeWholeMillis, cell.Satellite.RangeFractionalMillis, cell.RangeDelta)
 //@ ensures[C08] Cell7WF(cell) && aggRange(cell.Satellite.RangeWholeMillis, cell.Satellite.RangeFractionalMillis, cell.RangeDelta) >= 0 ==> result < 274877906944
 
 //@ func (*Cell).GetAggregatePhaseRange
 //@ arith wrap
 //@ requires[C07] cell != nil && cell.Satellite != nil
-//@ ensures[C08] Cell7WF(cell) && aggPhase(cell.Satellite.RangeWholeMillis, cell.Satellite.RangeFractionalMillis, cell.PhaseRangeDelta) >= 0 && cell.Satellite.RangeWholeMillis == 255 ==> result == 0
-//@ ensures[C08] Cell7WF(cell) && aggPhase(cell.Satellite.RangeWholeMillis, cell.Satellite.RangeFractionalMillis, cell.PhaseRangeDelta) >= 0 && cell.Satellite.RangeWholeMillis != 255 && cell.PhaseRangeDelta == 0 - 8388608 ==> result == aggPhase(cell.Satellite.RangeWholeMillis, cell.Satellite.RangeFractionalMillis, 0)
+//@ ensures[C08] Cell7WF(cell) && cell.Satellite.RangeWholeMillis == 255 ==> result == 0
+//@ ensures[C08] Cell7WF(cell) && cell.Satellite.RangeWholeMillis != 255 && cell.PhaseRangeDelta == 0 - 8388608 ==> result == aggPhase(cell.Satellite.RangeWholeMillis, cell.Satellite.RangeFractionalMillis, 0)
 //@ ensures[C08] Cell7WF(cell) && aggPhase(cell.Satellite.RangeWholeMillis, cell.Satellite.RangeFractionalMillis, cell.PhaseRangeDelta) >= 0 && cell.Satellite.RangeWholeMillis != 255 && cell.PhaseRangeDelta != 0 - 8388608 ==> result == aggPhase(cell.Satellite.RangeWholeMillis, cell.Satellite.RangeFractionalMillis, cell.PhaseRangeDelta)
 //@ ensures[C08] Cell7WF(cell) && aggPhase(cell.Satellite.RangeWholeMillis, cell.Satellite.RangeFractionalMillis, cell.PhaseRangeDelta) >= 0 ==> result < 1099511627776
 
@@ -136,20 +154,27 @@ package signal
 //@ func (*Cell).RangeInMetres
 //@ arith wrap
 //@ requires[C07] cell != nil
+//@ ensures[C08] Cell7WF(cell) && cell.Satellite.RangeWholeMillis == 255 ==> result == 0.0
+//@ ensures[C08] RangeValid7(cell) && cell.RangeDelta == 0 - 524288 ==> RangeOK7(cell, result)
 //@ ensures[C08] Cell7WF(cell) && cell.Satellite.RangeWholeMillis != 255 && cell.RangeDelta != 0 - 524288 && aggRange(cell.Satellite.RangeWholeMillis, cell.Satellite.RangeFractionalMillis, cell.RangeDelta) >= 0 ==> near(result, CLIGHT_MS * (real(cell.Satellite.RangeWholeMillis) + real(cell.Satellite.RangeFractionalMillis) / 1024.0 + real(cell.RangeDelta) / 536870912.0), 4)
 
 //@ func (*Cell).PhaseRange
 //@ arith wrap
 //@ requires[C07] cell != nil && cell.Satellite != nil
+//@ ensures[C08] Cell7WF(cell) && cell.Satellite.RangeWholeMillis == 255 && cell.Wavelength > 0.0 ==> result == 0.0
+//@ ensures[C08] PhaseValid7(cell) && cell.PhaseRangeDelta == 0 - 8388608 ==> PhaseOK7(cell, result)
 //@ ensures[C08] Cell7WF(cell) && cell.Satellite.RangeWholeMillis != 255 && cell.PhaseRangeDelta != 0 - 8388608 && aggPhase(cell.Satellite.RangeWholeMillis, cell.Satellite.RangeFractionalMillis, cell.PhaseRangeDelta) >= 0 && cell.Wavelength > 0.0 ==> near(result * cell.Wavelength, CLIGHT_MS * (real(cell.Satellite.RangeWholeMillis) + real(cell.Satellite.RangeFractionalMillis) / 1024.0 + real(cell.PhaseRangeDelta) / 2147483648.0), 6)
 
 // range rate = rough + fine/10000 m/s; Doppler = -(rate / wavelength)
 //@ func (*Cell).PhaseRangeRate
 //@ arith wrap
 //@ requires[C07] cell != nil
+//@ ensures[C08] Cell7WF(cell) && cell.Satellite.PhaseRangeRate == 0 - 8192 ==> result == 0.0
+//@ ensures[C08] RateValid7(cell) && cell.PhaseRangeRateDelta == 0 - 16384 ==> RateOK7(cell, result)
 //@ ensures[C08] Cell7WF(cell) && cell.Satellite.PhaseRangeRate != 0 - 8192 && cell.PhaseRangeRateDelta != 0 - 16384 ==> near(result, real(cell.Satellite.PhaseRangeRate) + real(cell.PhaseRangeRateDelta) / 10000.0, 2)
 
 //@ func (*Cell).PhaseRangeRateDoppler
 //@ arith wrap
 //@ requires[C07] cell != nil
+//@ ensures[C08] RateValid7(cell) && cell.PhaseRangeRateDelta == 0 - 16384 && cell.Wavelength > 0.0 ==> DopplerOK7(cell, result)
 //@ ensures[C08] Cell7WF(cell) && cell.Satellite.PhaseRangeRate != 0 - 8192 && cell.PhaseRangeRateDelta != 0 - 16384 && cell.Wavelength > 0.0 ==> near(0.0 - result * cell.Wavelength, real(cell.Satellite.PhaseRangeRate) + real(cell.PhaseRangeRateDelta) / 10000.0, 4)
